@@ -144,6 +144,7 @@ type Node struct {
 	DispParams     []Param // expected disposition parameters
 	Boundary       string
 	Preamble       []byte   // nil = no preamble (first delimiter starts the body)
+	DelimPad       []string // transport padding written behind each delimiter line (len(Children)+1 entries, normally all "")
 	Epilogue       []byte   // nil = nothing after the close delimiter (not even CRLF)
 	Delims         [][2]int // multipart: [start,end) of each delimiter line in tree.Bytes incl. the CRLF that precedes it (when there is one) and the CRLF that ends it (when there is one); last = close delimiter
 
@@ -360,14 +361,14 @@ func (l *layout) emit(n *Node) {
 				l.buf.WriteString("\r\n")
 			}
 
-			l.buf.WriteString("--" + n.Boundary + "\r\n")
+			l.buf.WriteString("--" + n.Boundary + n.pad(i) + "\r\n")
 			n.Delims = append(n.Delims, [2]int{ds, l.buf.Len()})
 			l.emit(c)
 		}
 
 		ds := l.buf.Len()
 
-		l.buf.WriteString("\r\n--" + n.Boundary + "--")
+		l.buf.WriteString("\r\n--" + n.Boundary + "--" + n.pad(len(n.Children)))
 
 		if n.Epilogue != nil {
 			l.buf.WriteString("\r\n")
@@ -381,6 +382,14 @@ func (l *layout) emit(n *Node) {
 	}
 
 	n.End = l.buf.Len()
+}
+
+func (n *Node) pad(i int) string {
+	if i < len(n.DelimPad) {
+		return n.DelimPad[i]
+	}
+
+	return ""
 }
 
 // finish turns the drawn root into a Tree: serialises, assigns offsets, slices, sizes, paths.
